@@ -277,7 +277,9 @@ class C08(DiffProperty):
                 cl.add("short-format-string")
         if t[1] != "N":
             cl.add("name-flags")
-        if t[2] != "~":
+        if t[2].startswith("@"):
+            cl.add("caller-loop:" + ("binary-path" if t[2] == "@B" else "plain-path"))
+        elif t[2] != "~":
             cl.add("target-nonempty")
         total = 0
         for c in tok_chunks(t[3]):
@@ -302,7 +304,7 @@ class C08(DiffProperty):
         fmt, acc, tgt, inp = t
         ch = tok_chunks(inp)
         mk = lambda f, a, g, c: " ".join([f, a, g, chunks_tok(c)])
-        if tgt != "~":
+        if tgt != "~" and not tgt.startswith("@"):
             yield mk(fmt, acc, "~", ch)
         if acc != "N":
             yield mk(fmt, "N", tgt, ch)
@@ -372,6 +374,34 @@ class C08(DiffProperty):
             for total in list(range(24, 72, 3)) + list(range(120, 136)) + list(range(184, 200, 2)):
                 cases.append(" ".join([cstr(f), "N", "~", chunks_tok([(0x61, total), list(b" \n")])]))
                 cases.append(" ".join([cstr(f), "N", "~", chunks_tok([(0x62, 3), list(b" v\n"), (0x61, total), list(b"\t")])]))
+        # caller-loop family (third token "@B" / "@D"): the element functions in a loop written as the one of
+        # mpt_parse_config on a path the caller owns, with MPT_PATHFLAG(SepBinary) (examples/core/parse.c, the program
+        # of the five parse_* ctest cases) and without: names holding the separator, element lengths around the length
+        # byte, nesting deep enough to chain several length bytes, path buffer block boundaries, then random text
+        for mode in ("@B", "@D"):
+            for f, a, ch in long_cases([253, 254, 255, 256, 257]):
+                cases.append(" ".join([cstr(f), cstr(a), mode, chunks_tok(ch)]))
+            for txt in (b"a.b {\n c.d = 1\n e. { .f = 2\n }\n}\n.. = 3\n", b"a { b { c { d { e = 1; } } } f = 2; }\ng = 3\n",
+                        b"{ { x = 1\n } }\n", b"a {\n}\n}\n", b"a { b = 1", b"a {\n b {\n }\n c = 2\n }\n"):
+                for a in (None, b"E", b"ESNWBFCesnwbfc"):
+                    cases.append(" ".join(["N", cstr(a), mode, chunks_tok([list(txt)])]))
+            for f, txt in ((b"[ ] = #", b"x=1\n[s.t]\nk.l=2\n[u]\n"), (b"%x% = #", b"x=1\n%s.t\nkk=2\n%u\n"), (b"{_} =", b"a.b=1\nc = 2\n"),
+                           (b"[ ]  ", b"[s]\nk v\n"), (b"{*} =;!# `", b"a.b { c=`x y`; !n\n }\n")):
+                cases.append(" ".join([cstr(f), "N", mode, chunks_tok([list(txt)])]))
+            for total in list(range(58, 70)) + list(range(186, 198, 2)) + [250, 251, 252]:
+                cases.append(" ".join(["N", "N", mode, chunks_tok([(0x61, total), list(b" { "), (0x62, total), list(b" { x = 1; } y = 2; }\n")])]))
+                cases.append(" ".join(["N", "sE", mode, chunks_tok([(0x61, total), list(b"{ { x = 1; } }\n")])]))
+        for i in range(n // 6):
+            f = rng.choice(FORMATS)
+            a = rng.choice(ACCEPTS[:1] * 4 + ACCEPTS)
+            k = rng.random()
+            if k < 0.4:
+                t = g.text(f)
+            elif k < 0.85:
+                t = g.mutate(f, g.text(f))
+            else:
+                t = [rng.choice(ALPHA) for _ in range(rng.choice([0, 1, 2, 3, 5, 8, 13, 30]))]
+            cases.append(" ".join([cstr(f), cstr(a), rng.choice(["@B", "@B", "@D"]), chunks_tok([t])]))
         # structured + mutated + malformed streams
         for i in range(n):
             f = rng.choice(FORMATS)
@@ -394,20 +424,34 @@ class C08(DiffProperty):
             "backslash / dot, NUL and high bytes, truncation), and a separate malformed stream of random bytes over a delimiter-heavy "
             "alphabet; names and values of 254..257 bytes and of 65534..65537 bytes (quick: 65535, 65536) in all four families; 30% of "
             "the cases parse into a non-empty target tree whose names overlap the input; a case is non-trivial always (classes count "
-            "families, custom formats, flags, NUL/high bytes, token lengths); distinct = distinct case text")
+            "families, custom formats, flags, NUL/high bytes, token lengths); distinct = distinct case text; caller-loop family "
+            "(third token @B / @D, about one case in seven): the same formats, flags and texts through the element functions in a "
+            "loop written as the one of mpt_parse_config on a path the caller owns, with MPT_PATHFLAG(SepBinary) as "
+            "examples/core/parse.c (the program of the five parse_* ctest cases) and without: names holding the separator "
+            "character, element lengths 253..257 and 65535/65536 against the length byte, four levels of nesting, path buffer "
+            "block boundaries, mutated and random streams")
     modelled = ("mptcore/parse/{parse_format,parse_accept,parse_next_fcn,parse_nextvis,parse_endline,parse_getchar,parse_ncheck,"
                 "parse_option,parse_data,parse_format_pre,parse_format_enc,parse_format_sep,parse_config,parse_node,node_append}.c, "
                 "config/{path_addchar,path_add,path_del,path_valid}.c (path_invalidate, path_delchar), node/node_move.c transcribed in "
-                "coq/C08/ParseModel.v; the path buffer is abstracted to (elements, post bytes, first, KeepPost, buffer present) — its "
-                "copy-on-write array is C04's subject; nodes are values (name, value bytes, children), links and storage are C14's and "
+                "coq/C08/ParseModel.v; the path buffer is abstracted to (elements, post bytes, first, KeepPost, buffer present, "
+                "SepBinary) — its copy-on-write array is C04's subject; mpt_path_add is transcribed in both separation formats "
+                "(separator: element must not hold the separator, one byte behind it consumed; binary: element <= 255 bytes, two "
+                "bytes consumed, first = length), the length bytes themselves (written by path_add.c 60-69, compared by "
+                "path_del.c 31-38) are not in the abstraction: the harness decodes the chain of length bytes at every event and "
+                "compares forward and backward lengths, the model supplies the elements; nodes are values (name, value bytes, children), links and storage are C14's and "
                 "C16's subject; allocation failure and a getc that reports a read error after the data are not generated")
     trusted = ["harness/c08_parse.c hands out every input byte once through a counting getc callback, keeps format and name-flag "
-               "strings and the input in exact-size heap blocks, splits the path at the separator itself and reads node links directly",
+               "strings and the input in exact-size heap blocks, splits the path at the separator itself (binary path: walks the "
+               "length bytes itself and reports an inconsistent chain as !bin) and reads node links directly; the caller loop of the @ "
+               "family is the harness's transcription of the loop of mpt_parse_config (the path is a local of that function, so a "
+               "path with other flags can only be handed to the element functions by a caller's own loop)",
                "LeakSanitizer (__lsan_do_recoverable_leak_check in every forked case) and ASan/UBSan observe leaks and invalid accesses; "
                "they are not proved",
                "isspace/isdigit/isprint/isalnum/isupper/tolower of the C locale are modelled as ASCII ranges"]
     level_text = ("proof: Coq theorems C08_parse_total, C08_parse_node_total, C08_getc_count_le_length, C08_fail_leaves_target, "
-                  "C08_events_well_nested, C08_events_depth, C08_no_fault, C08_parse_node_no_fault, C08_element_call state, for EVERY input list (any bytes, NUL, "
+                  "C08_events_well_nested, C08_events_depth, C08_no_fault, C08_parse_node_no_fault, C08_element_call, and for the loop "
+                  "of a caller on its own path with or without the binary element separation C08_caller_loop_total, "
+                  "C08_caller_loop_clean, C08_caller_loop_depth, C08_caller_loop_plain, C08_binary_add_fits state, for EVERY input list (any bytes, NUL, "
                   "read-error codes), EVERY one of the four families, EVERY format record (all delimiter / comment / escape "
                   "assignments, zero = unset) and EVERY name-flag set, that the transcribed parser returns (the outer loop fuel always "
                   "suffices, all inner loops are structural recursions on the input), that what it read is a prefix of the input "
